@@ -5,6 +5,10 @@ Case layout (all JSON-able)::
     geo   = {cls, dim, base, m, vox, vk, ctor, weights:[{kind, val, seed, const}]}
     data  = {payload, ncomp, series, nt, dtype}
     calls = [{r, pseed, form}]                     (history sub-check)
+    pool, builds                                   (shared-weights sub-check, see section 7)
+
+Data may be stored with an integer type (uint8 / uint16 photographs, counts): integers of
+that type; the image handed to normalize() has its own storage type (``idtype``).
 
 The native grid of the geometry has ``base[i] * m[i]`` voxels along axis i; a call at
 resolution ``r`` supplies data on ``base[i] * r[i]`` voxels.  A field is *defined* on the
@@ -147,8 +151,14 @@ def _wclass(geo):
 
 
 def _weight_array(geo, w):
-    """Dyadic positive weight on the native grid (k/8, k = 1..16)."""
+    """Dyadic positive weight on the native grid (k/8, k = 1..16); with an integer ``wdtype``
+    (mask / count maps) integers 0..3 (1..3 if constant) of that dtype."""
     shape = _native(geo)
+    wdt = np.dtype(w.get("wdtype", "float64"))
+    if wdt.kind in "iu" and w["kind"] != "scalar":
+        if w["const"]:
+            return np.full(shape, 1 + int(round(w["val"] * 8)) % 3, dtype=wdt)
+        return np.random.default_rng(w["seed"]).integers(0, 4, size=shape).astype(wdt)
     if w["kind"] == "scalar" or w["const"]:
         return np.full(shape, w["val"])
     return np.random.default_rng(w["seed"]).integers(1, 17, size=shape) / 8.0
@@ -158,7 +168,17 @@ def _dimensions(geo):
     return [n * h for n, h in zip(_native(geo), geo["vox"])]
 
 
-def build_geometry(geo):
+def _weight_object(geo, w):
+    """The object a user hands to the constructor for one weight: float, ndarray or Image."""
+    if w["kind"] == "scalar":
+        return float(w["val"])
+    if w["kind"] == "array":
+        return _weight_array(geo, w)
+    return darsia.Image(_weight_array(geo, w), space_dim=geo["dim"], dimensions=_dimensions(geo))
+
+
+def build_geometry(geo, args=None):
+    """``args``: ready-made weight objects (shared between several geometries) or None."""
     shape = _native(geo)
     # the constructor truncates num_voxels to space_dim entries so that a full array shape
     # (with time / component axes) may be passed
@@ -167,15 +187,8 @@ def build_geometry(geo):
         kw["dimensions"] = _dimensions(geo)
     else:
         kw["voxel_size"] = list(geo["vox"])
-    args = []
-    for w in geo["weights"]:
-        if w["kind"] == "scalar":
-            args.append(float(w["val"]))
-        elif w["kind"] == "array":
-            args.append(_weight_array(geo, w))
-        else:
-            args.append(darsia.Image(_weight_array(geo, w), space_dim=geo["dim"],
-                                     dimensions=_dimensions(geo)))
+    if args is None:
+        args = [_weight_object(geo, w) for w in geo["weights"]]
     return getattr(darsia, geo["cls"])(*args, **kw)
 
 
@@ -183,7 +196,7 @@ def _effective_volume(geo):
     """Reference effective voxel volume on the native grid: voxel volume x all weights."""
     vol = np.full(_native(geo), float(np.prod(np.array(geo["vox"], dtype=float))))
     for w in geo["weights"]:
-        vol = vol * _weight_array(geo, w)
+        vol = vol * _weight_array(geo, w).astype(float)
     return vol
 
 
@@ -201,11 +214,21 @@ def _field(geo, data, g, pseed, positive=False):
     if data["payload"] == "vector":
         shape.append(data["ncomp"])
     rng = np.random.default_rng(pseed)
+    dt = np.dtype(data["dtype"])
+    if dt.kind in "iu":
+        # integer-typed data (photographs, counts): integers of that dtype, no wrap-around
+        if positive:
+            arr = rng.integers(1, 33, size=shape)
+        elif dt.kind == "u":
+            arr = rng.integers(0, 64, size=shape)
+        else:
+            arr = rng.integers(-32, 32, size=shape)
+        return arr.astype(dt)
     if positive:
         arr = rng.integers(1, 33, size=shape) / 8.0
     else:
         arr = rng.integers(-32, 32, size=shape) / 8.0
-    return arr.astype(data["dtype"])
+    return arr.astype(dt)
 
 
 def _prolong(arr, g, r):
@@ -354,7 +377,14 @@ def _key(case):
 # ---------------------------------------------------------------------------------------
 
 
-def gen_single(tier, dtypes=("float64", "float64", "float64", "float32")):
+INT_DTYPES = ("uint8", "uint16", "int32", "int64")
+
+
+def _is_int(dtype):
+    return np.dtype(dtype).kind in "iu"
+
+
+def gen_single(tier, dtypes=("float64",) * 5 + ("float32", "float32", "uint8", "int16")):
     return st.fixed_dictionaries({
         "geo": geo_specs(),
         "data": data_specs(dtypes),
@@ -380,7 +410,7 @@ def check_weighted_sum(case):
     if not np.allclose(dm, _dimensions(geo), rtol=1e-15 * 8, atol=0):
         raise Violation("dimensions", f"{dm.tolist()} vs {_dimensions(geo)}", _tags(geo, data))
     nt = _nonconst_weight(geo) or _nonscalar(data) or geo["dim"] >= 2
-    return Outcome(nt, _key(case), _labels(geo, data, [m]))
+    return Outcome(nt, _key(case), _labels(geo, data, [m]) + (data["dtype"],))
 
 
 # ---------------------------------------------------------------------------------------
@@ -593,6 +623,11 @@ def gen_normalize(tier):
             # amplitude of the data (power of two: exact): normalisation is scale-free, so tiny or
             # huge absolute integrals (SI units, mm-sized cells) must behave like order-one ones
             "amp_exp": draw(st.sampled_from([0, 0, -20, -40, -60, 30])),
+            # storage type of the image to be normalised (photographs are uint8 / uint16,
+            # counts are integers): None = the float type of the reference; ref_int = the
+            # reference is stored with the same integer type
+            "idtype": draw(st.sampled_from([None] * 8 + list(INT_DTYPES))),
+            "ref_int": draw(st.booleans()),
         }
 
     return strat()
@@ -602,11 +637,16 @@ def check_normalize(case):
     geo, data, r = case["geo"], case["data"], case["r"]
     gg = _gcd_grid(geo, [r])
     # positive image (non-zero integral per time step / component), general reference
-    f_img = _field(geo, data, gg, case["pseed"][0], positive=True)
-    f_ref = _field(geo, data, gg, case["pseed"][1])
+    idtype = case.get("idtype") or data["dtype"]
+    rdtype = idtype if (_is_int(idtype) and case.get("ref_int")) else data["dtype"]
+    f_img = _field(geo, dict(data, dtype=idtype), gg, case["pseed"][0], positive=True)
+    f_ref = _field(geo, dict(data, dtype=rdtype), gg, case["pseed"][1])
     amp = 2.0 ** case.get("amp_exp", 0)
-    f_img = f_img * amp
-    f_ref = f_ref * amp
+    if not _is_int(idtype):  # (a power of two: exact, the float type is kept)
+        f_img = f_img * amp
+    if not _is_int(rdtype):
+        f_ref = f_ref * amp
+    f32 = "float32" in (idtype, rdtype)
     a_img = _prolong(f_img, gg, r)
     a_ref = _prolong(f_ref, gg, r)
     g = build_geometry(geo)
@@ -617,12 +657,19 @@ def check_normalize(case):
         return Outcome(False, _key(case), _labels(geo, data, [r]), status="rejected")
     i_img = _integrate(g, img, geo, data, r, "image")
     t = _tags(geo, data)
-    t["dtype"] = data["dtype"]
+    t["dtype"] = idtype
     try:
         out = g.normalize(img, ref)
         out2, ratio = g.normalize(img, ref, return_ratio=True)
+    except TypeError as e:
+        if _is_int(idtype) and not _nonscalar(data):
+            # scalar ratio: darsia.weight multiplies the integer array in place by a float
+            raise Violation("normalize:integer-scalar", f"normalize of a scalar {idtype} image "
+                            f"raised {type(e).__name__}({e}) (vector / series images of the "
+                            "same type are rescaled to a float image)", t)
+        raise
     except ValueError as e:
-        if data["dtype"] == "float32" and not _nonscalar(data) and not _has_array_weight(geo):
+        if idtype == "float32" and not _nonscalar(data) and not _has_array_weight(geo):
             # np.float32 ratio is neither float nor ndarray for darsia.weight
             raise Violation("normalize:float32-scalar", f"normalize of a float32 scalar image "
                             f"raised ValueError({e}) (the float32 ratio is rejected by "
@@ -632,7 +679,7 @@ def check_normalize(case):
         raise
     _, mag_ref = _reference(geo, _prolong(f_ref, gg, geo["m"]))
     _, mag_img = _reference(geo, _prolong(f_img, gg, geo["m"]))
-    tol = 1e-12 if data["dtype"] == "float64" else TOL_CV
+    tol = TOL_CV if f32 else 1e-12
     i_out = _integrate(g, out, geo, data, r, "normalized image")
     # |I(out) - I(ref)|: out = img * (I_ref/I_img); rounding relative to |I_ref| * mag_img/I_img
     i_img_f = np.asarray(i_img, dtype=float)
@@ -651,8 +698,11 @@ def check_normalize(case):
         raise Violation("normalize-rescale", "normalized image is not image x ratio", t)
     if not np.array_equal(img.img, a_img) or not np.array_equal(ref.img, a_ref):
         raise Violation("normalize-mutates", "normalize modified its arguments", t)
+    labs = (f"img-{idtype}", f"ref-{rdtype}", f"amp2^{case.get('amp_exp', 0)}")
+    if _is_int(idtype):
+        labs += ("int-image:" + ("nonscalar" if _nonscalar(data) else "scalar"),)
     return Outcome(True, [_key(case), case.get("amp_exp", 0)],
-                   _labels(geo, data, [r]) + (data["dtype"], f"amp2^{case.get('amp_exp', 0)}"), evals=2)
+                   _labels(geo, data, [r]) + labs, evals=2)
 
 
 # ---------------------------------------------------------------------------------------
@@ -666,7 +716,7 @@ def gen_image_array(tier):
         geo = draw(geo_specs())
         return {
             "geo": geo,
-            "data": draw(data_specs(("float64", "float64", "float32"))),
+            "data": draw(data_specs(("float64",) * 4 + ("float32", "float32", "uint8", "int32"))),
             "r": draw(resolutions(geo, _res_kinds(geo))),
             "pseed": draw(st.integers(0, 2**20)),
         }
@@ -699,6 +749,134 @@ def check_image_array(case):
 
 
 # ---------------------------------------------------------------------------------------
+# 7. weights shared between geometry objects
+# ---------------------------------------------------------------------------------------
+#
+# A depth / porosity map is one object in a user's program and is handed to every geometry
+# that needs it: a fresh object of the same class, an extruded and an extruded-porous
+# geometry sharing the depth map, ...  Each of these geometries integrates to the weighted
+# sum with the weights *as provided* - which requires that building and using a geometry
+# leaves the weight objects alone.  Case layout::
+#
+#     geo    = grid only (cls "Geometry", no weights)
+#     pool   = [w0, w1]       weight specs (as in geo["weights"], plus wdtype); w0 is an array
+#     builds = [{cls, idx}]   geometries built one after the other from pool[idx[...]]
+
+
+def gen_shared(tier):
+    @st.composite
+    def strat(draw):
+        geo = draw(geo_specs(classes=("Geometry",)))
+        pool = []
+        for k in range(2):
+            kinds = ["array", "array", "image"] if k == 0 else ["array", "array", "image", "scalar"]
+            pool.append({
+                "kind": draw(st.sampled_from(kinds)),
+                "val": draw(st.integers(1, 16)) / 8.0,
+                "seed": draw(st.integers(0, 2**16)),
+                "const": draw(st.integers(0, 7)) == 0,
+                "wdtype": draw(st.sampled_from(["float64", "float64", "float64", "int64", "uint8"])),
+            })
+        builds = []
+        for k in range(draw(st.sampled_from([2, 2, 3]))):
+            cls = draw(st.sampled_from(CLASSES[1:]))
+            other = draw(st.integers(0, 1))
+            if NWEIGHTS[cls] == 1:
+                idx = [0 if k < 2 else other]  # the first two builds share pool[0]
+            else:
+                idx = [0, other] if draw(st.booleans()) else [other, 0]
+            builds.append({"cls": cls, "idx": idx})
+        gw = dict(geo, cls="WeightedGeometry", weights=pool)
+        return {
+            "geo": geo,
+            "pool": pool,
+            "builds": builds,
+            "data": draw(data_specs()),
+            "r": draw(resolutions(gw, _res_kinds(gw))),
+            "pseed": draw(st.integers(0, 2**20)),
+            "form": draw(st.sampled_from(["array", "image"])),
+        }
+
+    return strat()
+
+
+def _raw(obj):
+    return obj.img if isinstance(obj, darsia.Image) else obj
+
+
+def check_shared(case):
+    geo, data, r = case["geo"], case["data"], case["r"]
+    pool, builds = case["pool"], case["builds"]
+    m = list(geo["m"])
+    objs = [_weight_object(geo, w) for w in pool]
+    snaps = [np.array(_raw(o), copy=True) for o in objs]
+    gg = _gcd_grid(geo, [r])
+    fld = _field(geo, data, gg, case["pseed"])
+    arr = _prolong(fld, gg, r)
+    native = _prolong(fld, gg, m)
+
+    def unchanged(when, gk):
+        for i, (o, s0) in enumerate(zip(objs, snaps)):
+            now = np.asarray(_raw(o))
+            if now.dtype != s0.dtype or not np.array_equal(now, s0):
+                raise Violation(
+                    "weight-modified",
+                    f"{when}: the {pool[i]['kind']} weight ({s0.dtype}, {list(s0.shape)}) handed to "
+                    f"the constructor was modified (max |change| "
+                    f"{float(np.max(np.abs(now.astype(float) - s0.astype(float)))):.3e}); every "
+                    "further geometry built from it integrates with other weights than provided",
+                    _tags(gk, data))
+
+    geos, objs_g, firsts = [], [], []
+    n = 0
+    for k, b in enumerate(builds):
+        gk = dict(geo, cls=b["cls"], weights=[pool[i] for i in b["idx"]])
+        args = []
+        for i in b["idx"]:
+            # only the extruded porous geometry documents Images: the others get the array
+            args.append(objs[i] if b["cls"] == "ExtrudedPorousGeometry" else _raw(objs[i]))
+        what = f"geometry {k + 1}/{len(builds)} ({b['cls']}, weights {b['idx']} of the pool)"
+        g = build_geometry(gk, args)
+        unchanged(f"after building {what}", gk)
+        v = _integrate(g, _wrap(arr.copy(), gk, data, case["form"]), gk, data, r, what)
+        unchanged(f"after integrating with {what}", gk)
+        geos.append(gk)
+        objs_g.append(g)
+        firsts.append(v)
+        if v is REJECTED:
+            continue
+        n += 1
+        want, mag = _reference(gk, native)
+        _compare(v, want, mag, _tol(gk, data, r), gk, data,
+                 "weighted-sum" if k == 0 else "shared-weight",
+                 f"{what} at resolution {_rclass(geo, r)}: weighted sum with the provided weights",
+                 arr.shape)
+    # the earlier objects are not affected by the later ones
+    for k, (gk, g, v1) in enumerate(zip(geos[:-1], objs_g[:-1], firsts[:-1])):
+        what = f"geometry {k + 1} again after building {len(builds) - k - 1} more"
+        v = _integrate(g, _wrap(arr.copy(), gk, data, case["form"]), gk, data, r, what)
+        if (v is REJECTED) != (v1 is REJECTED):
+            raise Violation("history:rejection", f"{what}: rejected once only", _tags(gk, data))
+        if v is REJECTED:
+            continue
+        _, mag = _reference(gk, native)
+        _compare(v, np.asarray(v1, dtype=float), mag, 0.0, gk, data, "shared-weight",
+                 f"{what} differs from its first value", arr.shape)
+    unchanged("at the end", geos[0])
+    shared_kinds = sorted({pool[i]["kind"] for i in set(builds[0]["idx"]) & set(builds[1]["idx"])})
+    labs = [f"dim{geo['dim']}", f"data-{_dclass(data)}", f"res-{_rclass(geo, r)}",
+            f"builds{len(builds)}",
+            "same-class" if builds[0]["cls"] == builds[1]["cls"] else "cross-class"]
+    labs += [f"share-{k}" for k in shared_kinds]
+    labs += sorted({f"wdtype-{pool[i]['wdtype']}" for b in builds for i in b["idx"]
+                    if pool[i]["kind"] != "scalar"})
+    labs += sorted({b["cls"] for b in builds})
+    if n == 0:
+        return Outcome(False, _key(case), tuple(labs), status="rejected")
+    return Outcome(True, _key(case), tuple(labs), evals=n + len(builds) - 1)
+
+
+# ---------------------------------------------------------------------------------------
 
 _RULE = ("Hypothesis draws the geometry class (5), space_dim 1-3, native extents 1..8 (1..16 in "
          "1-D) as base x multiplier, voxel sizes (unit / power-of-two / generic), constructor "
@@ -707,6 +885,11 @@ _RULE = ("Hypothesis draws the geometry class (5), space_dim 1-3, native extents
          "coarser, per-axis coarser incl. non-integer ratios, integer finer); the field lives "
          "on the gcd grid and is prolonged by np.repeat; non-trivial (history) = returns to "
          "native after a resized call, or non-constant array weight, or vector/series data; "
+         "data dtype float64 / float32 / integer (weighted_sum, image_equals_array; normalize: "
+         "image stored as uint8 / uint16 / int32 / int64 in 1/3 of the cases, reference float "
+         "or the same integer type); shared_weights: 2-3 geometries (same or different "
+         "weighted classes) built one after the other from one pool of weight objects "
+         "(float64 / int64 / uint8 arrays, Images, floats), the first two share an array; "
          "distinct = the whole case")
 
 _SH = {"quick": 2, "thorough": 16}
@@ -722,7 +905,12 @@ PROP = Prop(
         "only conservative regimes: no axis finer and another coarser than native; refinement "
         "by integer factors only; array weights resized only in 2-D (documented ValueError "
         "elsewhere is counted as rejected)",
-        "normalize: image with positive entries (non-zero integrals), float dtypes",
+        "normalize: image with positive entries (non-zero integrals); float or integer storage "
+        "types (integer entries 1..32, no wrap-around); the result is compared as returned "
+        "(a float image for integer input)",
+        "shared_weights: weight objects are compared bit-wise with copies taken before the "
+        "first constructor call; integer weight arrays (masks / counts 0..3) are accepted by "
+        "np.multiply in the constructors and give float64 volumes",
     ],
     subs=[
         Sub("weighted_sum", check_weighted_sum, gen=gen_single,
@@ -737,5 +925,7 @@ PROP = Prop(
             n=_N, shards=_SH),
         Sub("image_equals_array", check_image_array, gen=gen_image_array,
             n=_N, shards=_SH),
+        Sub("shared_weights", check_shared, gen=gen_shared,
+            n={"quick": 2000, "thorough": 20000}, shards=_SH),
     ],
 )
